@@ -72,11 +72,14 @@ def run(ctx):
     if ctx.thorough:
         r2 = ctx.tlc("MC_TraversalQueue", "MC_TraversalQueue_thorough.cfg", timeout=3000)
         ctx.require_actions(storage_util.parse_action_coverage(r2), ACTIONS)
-        r3 = ctx.tlc("MC_TraversalQueue", "Sim_TraversalQueue.cfg", simulate=3000, depth=41,
+        r4 = ctx.tlc("MC_TraversalQueue", "MC_TraversalQueue_wide.cfg", timeout=3000)
+        ctx.require_actions(storage_util.parse_action_coverage(r4), ACTIONS)
+        r3 = ctx.tlc("MC_TraversalQueue", "Sim_TraversalQueue.cfg", simulate=750, depth=41, workers=4,
                      timeout=1200)
-        if len(r3.replays) < 1000:
-            raise verif.ToolError("simulation produced only %d behaviours" % len(r3.replays))
-        runs.append(("sim", r3.replays))
+        sim = storage_util.dedupe_by_prefix(r3.replays)
+        if len(sim) < 1000:
+            raise verif.ToolError("simulation produced only %d behaviours" % len(sim))
+        runs.append(("sim", sim))
     n_amb = n_drift = n_i2s = 0
     for tag, items in runs:
         res = ctx.run_engine(vh, "queue", items, tag="queue-" + tag)
